@@ -339,3 +339,23 @@ Definition call_model (m : meth) (r : recv) (args : list arg) : option res :=
         end
     end
   end.
+
+(* ---------- the order in which builtin_string.go converts its arguments ---------- *)
+(* Same as ES5 except: split returns before converting the separator when the limit is 0, and
+   lastIndexOf returns before converting the position when the receiver is empty. *)
+Definition plan_model (m : meth) (this : str) (eargs : list earg) : list (nat * conv) :=
+  match m with
+  | MLastIndexOf =>
+      (0%nat, KS) ::
+      (if (length eargs <? 2)%nat || e_undef (earg_at eargs 1) || is_nil this then [] else [(1%nat, KN)])
+  | MSplit =>
+      let lim0 :=
+        match earg_at eargs 1 with
+        | EPlain AUndef => false
+        | EPlain a => match go_uint 32 a with Some 0 => true | _ => false end
+        | EObj _ _ nb _ _ => match go_uint 32 (ANum nb) with Some 0 => true | _ => false end
+        end in
+      (if e_undef (earg_at eargs 1) then [] else [(1%nat, KN)]) ++
+      (if lim0 || e_undef (earg_at eargs 0) then [] else [(0%nat, KS)])
+  | _ => plan_spec m eargs
+  end.
